@@ -353,7 +353,7 @@ def check_main(engine_name, prop, tier, base_seed, cfg, nruns, workers,
         # history alone; other runs with the same signature are tried before
         # the check gives up on a replayable witness.
         ok, why = False, 'no candidate'
-        for cand in [r] + alternates.get(sig, [])[:6]:
+        for cand in [r] + alternates.get(sig, [])[:10]:
             hist = cand['history']
             viol = cand['violation']
             try:
@@ -366,6 +366,19 @@ def check_main(engine_name, prop, tier, base_seed, cfg, nruns, workers,
             tag = f'{base_seed}-{cand["run"]}-{digest(sig, 6)}'
             path = write_replay(prop, engine_name, small, sviol, tag)
             ok, why = verify_replay_fresh(prop, path, sig)
+            if not ok and small is not hist:
+                # minimisation replays candidates in *this* process; when the
+                # library keeps state between lenses (module / class level)
+                # the minimised history may lean on what earlier candidates
+                # left behind.  The history as recorded is tried as is.
+                try:
+                    os.replace(path, path[:-5] + '.unreproduced')
+                except OSError:
+                    pass
+                path = write_replay(prop, engine_name, hist, viol, tag)
+                ok, why = verify_replay_fresh(prop, path, sig)
+                if ok:
+                    small, sviol = hist, viol
             if ok:
                 r = cand
                 break
